@@ -39,6 +39,11 @@ func checkC02(c *Ctx) {
 	c02Sets(c)
 	c02Helpers(c)
 	c02RuleNames(c)
+	// (P9) a predicate step denotes the IRI its prefix is bound to by THIS profile and the built-in table: the expander's
+	// context is a fresh copy of the defaults overlaid by the profile's prefixes (an aliased table lets an earlier profile
+	// rebind the prefixes of a later one)
+	r.Rule("C02.P9", "the IRI a path step denotes depends on the profile alone: fresh expander context, defaults then profile prefixes", 2)
+	prefixResolution(c, "C02.P9")
 	// (P7) which traversal a step gets (custom domain property or regular predicate) depends on the namespace the IRI
 	// expands to, never on how the prefix is spelled
 	r.Rule("C02.P7", "path steps are classified by their expanded IRI, not by a prefix name", 1)
@@ -917,6 +922,58 @@ func c02Sets(c *Ctx) {
 				}
 				return true
 			})
+		}
+	}
+	// every alternative contributes its clause: a function that turns the list of traversal results into a rule ranges over
+	// the list it was given (a filtered or de-duplicated copy drops alternatives: `p | p^` have the same property list)
+	for _, f := range gen.Syntax {
+		for _, d := range f.Decls {
+			fd, ok := d.(*ast.FuncDecl)
+			if !ok || fd.Body == nil || fd.Type.Params == nil || len(fd.Type.Params.List) != 1 || len(fd.Type.Params.List[0].Names) != 1 {
+				continue
+			}
+			prm := info.Defs[fd.Type.Params.List[0].Names[0]]
+			sl, ok := prm.Type().Underlying().(*types.Slice)
+			if !ok {
+				continue
+			}
+			st, ok := sl.Elem().Underlying().(*types.Struct)
+			if !ok {
+				continue
+			}
+			hasRego := false
+			for i := 0; i < st.NumFields(); i++ {
+				if st.Field(i).Name() == "rego" {
+					hasRego = true
+				}
+			}
+			if !hasRego || fd.Type.Results == nil {
+				continue
+			}
+			reassigned := false
+			loops, direct := 0, 0
+			ast.Inspect(fd.Body, func(n ast.Node) bool {
+				switch x := n.(type) {
+				case *ast.AssignStmt:
+					for _, l := range x.Lhs {
+						if id, ok := l.(*ast.Ident); ok && info.Uses[id] == prm {
+							reassigned = true
+						}
+					}
+				case *ast.RangeStmt:
+					if tv, ok := info.Types[x.X]; ok && types.Identical(tv.Type, prm.Type()) {
+						loops++
+						if id, ok := ast.Unparen(x.X).(*ast.Ident); ok && info.Uses[id] == prm {
+							direct++
+						}
+					}
+				}
+				return true
+			})
+			if loops == 0 {
+				continue
+			}
+			r.Check(!reassigned && loops == direct, "C02.P5", relOf(gen)+"."+fd.Name.Name+"#every-alternative", p.Pos(fd.Pos()), "one clause per traversal result: the loops range over the list the function was given", "the aggregation does not range over the list of alternatives it was given (it is filtered, de-duplicated or replaced first): alternatives that differ only in direction or in a later step are dropped from the union")
 		}
 	}
 	r.Analysed["set_consumers"] = sortedKeys(setUsers)
